@@ -173,3 +173,18 @@ CASES += [
          old="         if (!(other->key() == key))\n            throw runtime_error( \"Long argument abbreviation '\"\n                                 + format::toString( key)\n                                 + \"' matches more than one argument\");\n         p_arg_hdl = nullptr;",
          new="         p_arg_hdl = nullptr;"),
 ]
+
+G = 'src/library/prog_args/groups.cpp'
+CASES += [
+    dict(id='c08-orig-creation-order-dispatch', prop='C08', file=G, expect='R5',
+         old="         if ((key_owner != nullptr)\n             && (stored_group.mpArgHandler.get() != key_owner))\n            continue;   // for\n\n", new=""),
+    dict(id='c08-owner-first-abbreviation', prop='C08', file=G, expect='R5',
+         old="         if (abbr_owner != nullptr)\n            throw runtime_error( \"Long argument abbreviation '--\" + arg_string\n                                 + \"' matches more than one argument\");\n         abbr_owner = handler;",
+         new="         if (abbr_owner == nullptr)\n            abbr_owner = handler;"),
+    dict(id='c08-owner-exact-not-first', prop='C08', file=G, expect='R5',
+         old="      if ((handler->mArguments.findExactArg( key) != nullptr)\n          || (handler->mSubGroupArgs.findExactArg( key) != nullptr))\n         return handler;",
+         new="      if ((handler->mArguments.findArg( key) != nullptr)\n          || (handler->mSubGroupArgs.findExactArg( key) != nullptr))\n         return handler;"),
+    dict(id='c08-eq-owner-skip-positive-form', prop='C08', file=G, expect=None,
+         old="         if ((key_owner != nullptr)\n             && (stored_group.mpArgHandler.get() != key_owner))\n            continue;   // for\n\n         result = stored_group.mpArgHandler->evalSingleArgument( ai, alp.end());",
+         new="         if ((key_owner == nullptr)\n             || (stored_group.mpArgHandler.get() == key_owner))\n            result = stored_group.mpArgHandler->evalSingleArgument( ai, alp.end());"),
+]
